@@ -83,8 +83,10 @@ fn extract_bracket_expr(pattern: &str) -> Option<(String, &str)> {
 
                     if matches!(delim, '.' | '=' | ':') {
                         let rest = chars.as_str();
+                        // The delimiter must be followed by one more (single-byte)
+                        // character; if not, this is no bracket expression.
                         let end = rest.find([delim, ']'])? + 2;
-                        expr.push_str(&rest[..end]);
+                        expr.push_str(rest.get(..end)?);
                         chars = rest[end..].chars();
                     }
                 }
